@@ -240,7 +240,11 @@ func (o *ObsC03) AfterOp(x *Exec, i int, op Op, res *OpResult) *vcore.Failure {
 					}
 				}
 			}
-			keep, known := x.keepDecision(b.Policy, ko, wl, holdings)
+			pol := b.Policy
+			if wl != nil {
+				pol = uint16(wl.PolicyNum()) // the policy is what the pod's annotations say, not what happens to be stored
+			}
+			keep, known := x.keepDecision(pol, ko, wl, holdings)
 			if !known {
 				continue
 			}
@@ -270,6 +274,46 @@ func (o *ObsC03) AfterOp(x *Exec, i int, op Op, res *OpResult) *vcore.Failure {
 			}
 			if a, ok := after.Alloc[ip]; ok && a.Key == b.Key && op.K != "unbind" {
 				o.Keeps++
+			}
+		}
+	}
+	// "released exactly when the policy says so": an unbind that ran to completion for a gone pod must have released
+	// every IP of that pod for which the documented policy says release
+	if op.K == "unbind" && res.Before != nil && !res.Concurrent && res.Err == nil && res.UnbindPod != nil {
+		if ko, err := putil.FormatKey(res.UnbindPod); err == nil && x.truthGone(res.UnbindPod.Name) {
+			after := x.W.Snap()
+			wl := x.wlByKey(ko)
+			foreign := false
+			for _, ip := range res.Before.ByKey(ko.KeyInDB) {
+				if b := res.Before.Alloc[ip]; b.UID != "" && b.UID != string(res.UnbindPod.UID) {
+					foreign = true // an IP of the key belongs to another incarnation: unbind leaves the key alone (resync decides)
+				}
+			}
+			for _, ip := range res.Before.ByKey(ko.KeyInDB) {
+				if foreign {
+					break
+				}
+				if !inConfig(x.ConfInForce, ip) || wl == nil {
+					continue
+				}
+				holdings := 0
+				if wl.Kind == "dp" {
+					for _, f := range res.Before.Alloc {
+						if strings.HasPrefix(f.Key, poolPrefixOf(wl)) {
+							holdings++
+						}
+					}
+				}
+				// the decision uses the policy of the pod object handed to unbind
+				pol := uint16(wl.PolicyNum())
+				keep, known := x.keepDecision(pol, ko, wl, holdings)
+				if !known || keep {
+					continue
+				}
+				if a, still := after.Alloc[ip]; still {
+					return vcore.Failf("c03:not_released", "unbind of gone pod %s kept IP %s (now keyed %q) although the documented policy "+
+						"(policy %d, workload view %s, app holdings %d) says release", res.UnbindPod.Name, ip, a.Key, pol, x.viewStr(wl), holdings)
+				}
 			}
 		}
 	}
